@@ -90,6 +90,11 @@ CHECKS = {
         technique="TLA+ model of printer name allocation (Naming.tla, Injective checked by TLC over every hint assignment) replayed on real IR, and TLC-judged structural equivalence (IRIso.tla) of original and re-parsed IR on the joint projection",
         text="Every assignment of the model's raw-hint alphabet to 4 values and every pair of block hints is applied to real IR, printed in generic form, parsed in a fresh context; TLC judges original ~ re-parsed (names, attributes, properties, types, successors, nesting, use-def incl. forward references); printing twice, printing the clone and re-printing the parse must give the same text. Same for generated test-dialect trees with random hints and forward references and for every parseable chunk of the repository's .mlir corpus.",
         note="Trusted: IRIso.tla as the definition of structural equivalence; attribute values compared by Python == after re-parse. Five defects repaired (fix: commits), one open finding (dense_resource keys renamed by the process-global blob storage)."),
+    "C28": dict(
+        category="translation_validation", design_ref="DESIGN.md §4 C28",
+        technique="TLA+ e-graph model (EGraph.tla: class values by least fixpoint, ClassSound; AddNode/Merge/Rebuild model-checked in EGraphMC.tla with a negative control) evaluated by TLC on e-graph snapshots of the real pipeline; source vs extracted program executed by TLC under Machine.tla",
+        text="Generated single-block pure arith functions over i8/i32 run through the real eqsat-create-eclasses, apply-eqsat-pdl-interp (seven sound PDL rule sets converted by the repository's own PDL->pdl_interp->eqsat_pdl_interp passes, 1-5 iterations), eqsat-add-costs and eqsat-extract; the IR after each stage is projected to an e-graph and TLC checks on every input tuple that every class is sound and the returned classes keep the source's values; TLC executes source and extracted program on the same inputs; without rules the round trip must preserve results.",
+        note="Trusted: BV.tla/Machine.tla semantics; the e-graph projection (harness/drivers/c28.py). apply-eqsat-pdl itself needs mlir-opt and cannot run offline. One defect repaired (falsy constant attribute constraints), one open finding (extraction order)."),
     "C19": dict(
         category="exploration", design_ref="DESIGN.md §3.7, §4 C19",
         technique="TLA+ register-file execution of allocated blocks (RegAlloc.tla: the register file remembers which value each register holds) evaluated by TLC on the assignments produced by the real allocators",
